@@ -5,7 +5,7 @@ from trees import *
 from polys import *
 
 
-def gen_configurator(rng, quick=True, int_leaf=False, nested=True, top_items=False):
+def gen_configurator(rng, quick=True, int_leaf=False, nested=True, top_items=False, nest_p=0.3):
     """AST of a StingyConfigurator over boolean items (optionally one integer item `t`)"""
     items = list("abcdefgh")[:rng.randint(3, 5 if quick else 7)]
     # item ids come in several shapes; some look like generated ids ("VAR…"), some contain blanks / dashes / non-ASCII
@@ -29,14 +29,15 @@ def gen_configurator(rng, quick=True, int_leaf=False, nested=True, top_items=Fal
     def group(n):
         ids = rng.sample(items, min(n, len(items)))
         return [item(i) for i in ids]
-    def rule(depth):
-        kind = rng.choice(["ccAny", "ccXor", "ccAnyD", "ccXorD", "AtMost", "All", "Any", "Imply", "Xor", "ExactlyOne", "XNor", "AtLeast"])
+    def rule(depth, kinds=("ccAny", "ccXor", "ccAnyD", "ccXorD", "AtMost", "All", "Any", "Imply", "Xor", "ExactlyOne", "XNor", "AtLeast")):
+        kind = rng.choice(kinds)
         a = {}
         if rng.random() < 0.7: a["id"] = rid()
         if kind in ("ccAny", "ccXor", "ccAnyD", "ccXorD"):
             args = group(rng.randint(2, 3))
-            if nested and depth > 0 and rng.random() < 0.3:
-                args.append(rule(depth - 1))
+            if nested and depth > 0 and rng.random() < nest_p:
+                # choices nested in choices — half of the time a defaulted choice below a (defaulted) choice
+                args.append(rule(depth - 1, ("ccAnyD", "ccXorD")) if rng.random() < 0.5 else rule(depth - 1))
             a.update(c=kind[:5], args=args)
             if kind.endswith("D"):
                 a["default"] = [rng.choice([x["id"] for x in args if x["c"] in ("str", "var")])]
